@@ -218,6 +218,12 @@ func Dims(md protoreflect.MessageDescriptor, o ValueOpts) []Dim {
 			continue
 		}
 		d := Dim{Name: string(fd.Name()), Alts: []Alt{{Label: "unset", Set: func(protoreflect.Message) {}}}}
+		if o.PathSafe[string(fd.Name())] && fd.IsList() && fd.Kind() != protoreflect.MessageKind {
+			// a required repeated query parameter always has at least one occurrence
+			d.Alts = listAlts(fd, o)
+			dims = append(dims, d)
+			continue
+		}
 		if o.PathSafe[string(fd.Name())] && !fd.IsList() && !fd.IsMap() && fd.Kind() != protoreflect.MessageKind {
 			// URL-bound (path variable / required query parameter): the field always carries a non-empty value
 			d.Alts = nil
